@@ -5,11 +5,12 @@ from . import _func, _loss
 def run(tier, seed):
     q = tier == "quick"
     return _func.run(
-        "C05", tier, seed, emitters=[("MC_Loss", _loss.MC % ("C11L", 8), "MC_Loss_C05_spinn"), ("MC_Loss", _loss.MC % ("C05", 4 if q else 8), "MC_Loss_C05")], extras=lambda s: [],
+        "C05", tier, seed, emitters=[("MC_Loss", _loss.MC % ("C11L", 8), "MC_Loss_C05_spinn"), ("MC_Loss", _loss.MC % ("C12", 8), "MC_Loss_C05_obsparams"), ("MC_Loss", _loss.MC % ("C05", 4 if q else 8), "MC_Loss_C05")], extras=lambda s: [],
         prepare=_loss.prepare_filtered(('ic', 'norm'), 0), sig=_loss.sig,
         rule="TLC enumerates loss kind x term (initial condition / normalisation / observations) x outputs 1..3 x batch sizes x sample "
              "counts 2,4,8 x volumes 1,2,4 x scalar/per-component weights x output slices x observed equation parameters entering u "
              "through its output transform x cartesian/paired batches; normalisation networks are non-constant over the samples; "
-             "expected = LossSemantics!IC / Norm / Obs; distinct = distinct structure",
+             "expected = LossSemantics!IC / Norm / Obs; + the structures of the parameter family (C12) with an observed parameter, including a key "
+             "that is BOTH generated (parameter batch) and observed: the observed row wins; distinct = distinct structure",
         assumptions=["polynomial networks (exact under x64); normalisation for a scalar (sliced) solution; scalar weights for the ODE "
                      "initial condition and the normalisation"])
